@@ -140,6 +140,14 @@ def handle : Handler := fun op a =>
         | .default => s) sel0
       return jList (fun k =>
         Json.mkObj [("model", jRes (sel.getRows k)), ("spec", jRes (selectSpec sel sel.fields k)),
+                    ("tuple1", jRes (match selectorGetItem sel (.tuple [k]) with
+                      | .ok (.inr f) => .ok f
+                      | .ok (.inl _) => .error .other
+                      | .error e => .error e)),
+                    ("tuple2", jRes (match selectorGetItem sel (.tuple [k, k]) with
+                      | .ok (.inr f) => .ok f
+                      | .ok (.inl _) => .error .other
+                      | .error e => .error e)),
                     ("in_domain", Json.bool (inDomain nmax k))]) keys
   | "C14.annotate" => some do
       let t ← fld a "table" >>= storedOf
